@@ -123,14 +123,29 @@ def cells_to_int(cells):
 
 
 class SInt(Sym):
-    __slots__ = ("_term", "cells", "lo", "hi")
+    __slots__ = ("_term", "cells", "lo", "hi", "origin")
 
     def __init__(self, term, cells=None, lo=None, hi=None):
+        self.origin = None        # provenance, e.g. ("hexchar", nibble cells): code point of a hex-string character
         self._term = term
         self.cells = cells
         if cells is not None:
-            lo = 0 if lo is None else max(lo, 0)
-            h = (1 << len(cells)) - 1
+            # tight bounds from the bit view: constant cells count as they are, symbolic ones as 0 / 1
+            l_ = 0
+            h = 0
+            for c in cells:
+                l_ <<= 1
+                h <<= 1
+                if isinstance(c, IRef):
+                    h |= 1
+                    continue
+                b = B.norm(c)
+                if isinstance(b, int):
+                    l_ |= b
+                    h |= b
+                else:
+                    h |= 1
+            lo = l_ if lo is None else max(lo, l_)
             hi = h if hi is None else min(hi, h)
         self.lo = lo
         self.hi = hi
@@ -349,6 +364,13 @@ class SStr(Sym):
 
 def mkstr(pieces):
     s = SStr(pieces)
+    # a string made only of '0' / '1' characters keeps the dedicated binary-string type
+    if s.pieces and all(isinstance(p, SBin) or (isinstance(p, str) and str_to_cells(p) is not None) for p in s.pieces) \
+       and any(isinstance(p, SBin) for p in s.pieces):
+        cells = []
+        for p in s.pieces:
+            cells.extend(p.cells if isinstance(p, SBin) else str_to_cells(p))
+        return sbin_or_str(cells)
     if not s.pieces:
         return ""
     if len(s.pieces) == 1 and isinstance(s.pieces[0], (str, SHex, SBin)):
@@ -391,6 +413,11 @@ class SList:
 
     def __repr__(self):
         return "SList(%r)" % (self.items,)
+
+
+class SByteList(SList):
+    """bytes / bytearray: a list of character codes"""
+    __slots__ = ()
 
 
 class SDict:
